@@ -1258,15 +1258,19 @@ class KVDef(EntAttribute):
         if self.reportable:
             file.write('report ')
 
-        if self._type is not ValueTypes.SPAWNFLAGS:
-            # Spawnflags never use names!
-            file.write(': ')
-            _write_longstring(file, custom_syntax, self.disp_name, indent='\t')
-
         default = self.default
         if not default and self.type is ValueTypes.BOOL:
             # This has to be present.
             default = '0'
+
+        if self._type is not ValueTypes.SPAWNFLAGS:
+            # Spawnflags never use names!
+            file.write(': ')
+            if self.disp_name or default or self.desc:
+                _write_longstring(file, custom_syntax, self.disp_name, indent='\t')
+            else:
+                # Nothing else follows. A bare colon would make the parser continue onto the next line.
+                file.write('""')
 
         if default:
             default_str = str(default)
